@@ -7,4 +7,10 @@ META = {
   "text": "Theorems (Coq kernel, no axioms) over a Gallina model of Intervals<B>: every history of unions/intersections of any length keeps the set sorted, disjoint and below the capacity and never panics; union/intersection/simplification never lose a point, also when the 128-interval capacity is crossed; contains is exact; is_subset_of is sound whenever the intersection fold stays below capacity (computable side condition; the unconditional statement is not proved yet). The model is tied to the code by evaluating it inside Coq on the operation histories and set pairs the real implementation ran; the lattice laws are also tested directly on the implementation.",
   "note": "Trusted: Coq kernel + vm_compute, the harness (case generation, order embedding of f64 bits into Z), the sampled correspondence model=code. Modelled not verified: intervals.rs. DataType-level lattice (struct/union/optional/list, cross-variant injections) is not yet in the Coq model; it is exercised by the oracle stream only.",
  },
+ "C15": {
+  "technique": "Coq proof: complete specification of path lookup (exact or unique agreeing suffix) + in-Coq differential check against Hierarchy",
+  "design_ref": "DESIGN.md section 4, C15",
+  "text": "Theorems (no axioms) over a Gallina model of Hierarchy: get_key_value returns an entry iff it has exactly the looked-up path or is the only entry agreeing with it on all common trailing components (and there is no exact key); several agreeing entries and no exact key give None; the answer does not depend on traversal/insertion order. Tied to the code by evaluating the model inside Coq on the maps and paths the implementation was run on (get_key_value, filter, prepend, and_then); an independent implementation of the specification is compared with the library on every case, and generated join/CTE queries with overlapping column names must refuse an unqualified ambiguous column.",
+  "note": "Trusted: Coq kernel, harness, sampled correspondence. Modelled not verified: hierarchy.rs. The query-level half of the statement (sql/relation.rs, query_names.rs) is explored, not proved.",
+ },
 }
